@@ -749,4 +749,29 @@ def rule_lex_munch(prog):
                         "the payload of `%s` is put together (`+` / format!): `Display for TokenType` re-creates the lexeme from kind and "
                         "payload (it adds the `0x` itself), so formatting prints something that is not the lexeme that was read" % last(ctor),
                         ("payload",))
+    # (anychar) SPL: a character literal is a tick, *any one character* (or the escape `\n`), a tick.  In the lexer that builds
+    # TokenType::Char the character is read by `anychar`, possibly behind escape alternatives `map(tag("\.."), ..)`; a character
+    # class in its place (none_of / one_of / satisfy / char(..) / is_not ..) rejects legal literals such as `'''`, and a
+    # context-dependent alternative (peek / terminated) makes the token depend on what follows - which the look-ahead table does not know
+    char_lex = [b for b in lexers if any(x.get("k") == "Path" and x["res"].get("ctor_of") == "spl_frontend::tokens::TokenType::Char"
+                                         for x in hir.nodes(b["body"]))]
+    if not char_lex:
+        out.missing("lexer of character literals (Lexer impl constructing TokenType::Char)")
+    for b in char_lex:
+        anys = [x for x in hir.nodes_deep(prog, b["body"], 1, crate=c) if x.get("k") == "Path" and x["res"].get("k") == "Def" and
+                (x["res"].get("rp") or x["res"].get("p") or "").endswith("character::complete::anychar")]
+        restricted = []
+        for call in hir.nodes_deep(prog, b["body"], 1, crate=c):
+            if call.get("k") != "Call":
+                continue
+            cal = hir.callee(call) or ""
+            if not cal.startswith("nom::"):
+                continue
+            nm = last(cal)
+            if nm in ("none_of", "one_of", "satisfy", "is_not", "is_a", "take_while", "take_while1", "take_till", "take_till1", "char",
+                      "peek", "not", "terminated", "verify", "cond"):
+                restricted.append(nm)
+        out.add(b["d"], "the character of a character literal is any character (anychar), context-free", bool(anys) and not restricted,
+                c.loc(b["sp"]), "between the ticks the lexer uses %s%s: a legal literal is rejected or its recognition depends on the "
+                "characters behind it" % (", ".join(sorted(set(restricted))) or "no `anychar`", "" if anys else " and no `anychar`"), ("anychar",))
     return out
